@@ -54,6 +54,10 @@ def tryMessage (S : Schema) (P : IR.Prog) (pkt : String) (vs : List Val) : List 
     ) []
 
 
+def topMissing (cst : Cst) (tests : List SelfTest.Test) : List Json :=
+  let tops : List String := cst.defs.filterMap fun d => match d with | .packet p => some p.name.text | _ => none
+  (tops.filter fun n => !tests.any (fun t => t.pkt == n)).map Json.str
+
 def handle (req : Json) : Json :=
   let op := (req.getObjValAs? String "op").toOption.getD ""
   let text := (req.getObjValAs? String "text").toOption.getD ""
@@ -123,6 +127,29 @@ def handle (req : Json) : Json :=
                           | none => Json.str "error (range out of bounds / undefined helper / nil key)")]
                   | _, _ => acc) []
               Json.mkObj (("tried", (n : Json)) :: res)
+  | "selftest" =>
+    match parseFull text with
+    | none => Json.mkObj [("error", "syntax")]
+    | some cst =>
+      match specOf cst with
+      | none => Json.mkObj [("error", "no-spec")]
+      | some S =>
+        match req.getObjVal? "prog" >>= Load.progJ with
+        | .error e => Json.mkObj [("load_error", e)]
+        | .ok P =>
+          let fl := match req.getObjVal? "flags" with | .ok j => SelfTest.flagsJ j | .error _ => {}
+          let tj := match req.getObjVal? "tests" with | .ok (Json.arr a) => a.toList | _ => []
+          let loaded := tj.map fun j => (j, SelfTest.testJ P j)
+          let tests := loaded.filterMap fun (_, r) => r.toOption
+          let bad := loaded.filterMap fun (j, r) => match r with
+            | .error e => some (Json.mkObj [("name", (j.getObjValAs? String "name").toOption.getD "?"), ("load_error", e)])
+            | .ok _ => none
+          Json.mkObj [("enc", Conforms.confEnc S P), ("dec", Conforms.confDec S P),
+                      ("reasons", Json.arr ((Explain.explainEnc S P ++ Explain.explainDec S P).map reasonJ).toArray),
+                      -- a test is required for every packet declared with `packet` (inline objects are members)
+                      ("missing", Json.arr (topMissing cst tests).toArray),
+                      ("unloadable", Json.arr bad.toArray),
+                      ("results", Json.arr (tests.map (SelfTest.reportJ S P fl 64)).toArray)]
   | "conform" | "search" =>
     match parseFull text with
     | none => Json.mkObj [("error", "syntax")]
